@@ -12,6 +12,7 @@ import (
 	"math/rand"
 	"os"
 	"sort"
+	"strings"
 	"sync"
 )
 
@@ -38,6 +39,7 @@ type ShardResult struct {
 	Abort       string         `json:"abort,omitempty"` // "cpu" or "heap": watchdog fired in AbortCase
 	AbortCase   int            `json:"abort_case,omitempty"`
 	AbortSig    string         `json:"abort_sig,omitempty"` // signature the running case declared for a hang
+	Incon       []string       `json:"inconclusive,omitempty"`
 	curHangSig  string
 	hashSet     map[uint64]struct{}
 	mu          sync.Mutex
@@ -93,6 +95,15 @@ func (c *C) SetHangSig(sig string) {
 	c.res.mu.Unlock()
 }
 
+// Inconclusive records that this case could not be decided (harness fault, tool limit). Never folded into held or violated.
+func (c *C) Inconclusive(reason string) {
+	c.res.mu.Lock()
+	if len(c.res.Incon) < 5 {
+		c.res.Incon = append(c.res.Incon, fmt.Sprintf("case %d: %s", c.K, reason))
+	}
+	c.res.mu.Unlock()
+}
+
 // Sample keeps a few actual cases for the evidence file.
 func (c *C) Sample(v any) {
 	c.res.mu.Lock()
@@ -111,6 +122,11 @@ func (c *C) WantSample() bool {
 // Violate records a refuting observation. sig is a narrow machine-checkable
 // signature used for the known-finding lookup and for de-duplication.
 func (c *C) Violate(sig, msg string, detail any) {
+	if strings.HasPrefix(sig, "harness-") {
+		// a fault of the checking machinery is never a verdict on the property
+		c.Inconclusive(sig + ": " + msg)
+		return
+	}
 	c.res.mu.Lock()
 	n := 0
 	for _, v := range c.res.Violations {
